@@ -132,6 +132,15 @@ def run_cross(c):
     return rec
 
 
+def _cross_kw(c):
+    """How the number of cross links is prescribed: explicitly, by a density dn/dd, or not at all (null model)."""
+    if c["mode"] == "density":
+        return {"cross_link_density": c["dn"] / float(c["dd"])}
+    if c["mode"] == "null":
+        return {}
+    return {"number_cross_links": c["m"]}
+
+
 def run_seeded(c):
     """Generators / rewirings whose random source cannot be scripted: before/after relation."""
     from pyunicorn.core import Network, InteractingNetworks, SpatialNetwork, Grid
@@ -174,15 +183,14 @@ def run_seeded(c):
             elif k == "RandomlySetCrossLinks":
                 net = InteractingNetworks(A0.copy(), silence_level=3)
                 h = n // 2
-                new = InteractingNetworks.RandomlySetCrossLinks(net, list(range(h)), list(range(h, n)),
-                                                                number_cross_links=c["m"])
+                new = InteractingNetworks.RandomlySetCrossLinks(net, list(range(h)), list(range(h, n)), **_cross_kw(c))
                 rec["A1"] = enc.ints(new.adjacency)
                 rec["n1"] = h
             elif k == "RandomlySetCrossLinks_sparse":
                 net = InteractingNetworks(A0.copy(), silence_level=3)
                 h = n // 2
                 new = InteractingNetworks.RandomlySetCrossLinks_sparse(net, list(range(h)), list(range(h, n)),
-                                                                       number_cross_links=c["m"])
+                                                                       **_cross_kw(c))
                 rec["A1"] = enc.ints(new.adjacency)
                 rec["n1"] = h
             elif k == "set_random_links_by_distance":
@@ -237,20 +245,23 @@ def main(ctx):
             cross.append({"case": "x_%s_%d" % (s, k), "blk": "cross", "setup": h[1], "swaps": h[2],
                           "hist": [list(p) for p in h[3]]})
     seeded = []
-    nseed = 6 if ctx.tier == "quick" else 60
+    nseed = 10 if ctx.tier == "quick" else 60
     for j in range(nseed):
         n = 6 + (j % 7)
         for gen, m in (("ErdosRenyi_links", (n * (n - 1) // 2) * (1 + j % 3) // 4), ("BarabasiAlbert", 1 + j % 3),
                        ("BarabasiAlbert_igraph", 1 + j % 3), ("WattsStrogatz", 1 + j % 2),
                        ("randomly_rewire", 5 + j), ("RandomlySetCrossLinks", 1 + j % 4),
                        ("RandomlySetCrossLinks_sparse", 1 + j % 4), ("set_random_links_by_distance", 0)):
-            seeded.append({"case": "s_%s_%d" % (gen, j), "blk": "seeded", "gen": gen, "n": n, "m": m,
+            mode = ["count", "density", "null", "count0", "density0"][j % 5] if gen.startswith("RandomlySetCross") else "count"
+            dens = [(1, 4), (1, 2), (1, 1)][j % 3] if mode == "density" else (0, 1)
+            seeded.append({"case": "s_%s_%d" % (gen, j), "blk": "seeded", "gen": gen, "n": n,
+                           "m": 0 if mode == "count0" else m, "mode": mode.rstrip("0"), "dn": dens[0], "dd": dens[1],
                            "rseed": ctx.seed * 1000 + j})
         deg = [1 + (j + i) % 3 for i in range(n)]
         if sum(deg) % 2:
             deg[0] += 1
         seeded.append({"case": "s_Configuration_%d" % j, "blk": "seeded", "gen": "Configuration", "n": n, "m": 0,
-                       "deg": deg, "rseed": ctx.seed * 1000 + j})
+                       "deg": deg, "mode": "count", "dn": 0, "dd": 1, "rseed": ctx.seed * 1000 + j})
     ctx.exhaustive = ctx.tier == "thorough"
     ctx.extra["rule"] = (
         "DESIGN: TLC explores every sequence of random draws (accepted and rejected) of the geographical rewiring "
